@@ -1,8 +1,8 @@
 (* C02: series side of the switch for SE2 log.  Both paths are [A x + h y; A y - h x; th] with th = atan2(qz, qw), h = th/2 and
    the kernel A = (th/2)/tan(th/2) on the closed-form path, A = 1 - th^2/12 on the series path; -th^4/600 <= K_L - T_L <= 0. *)
 From Coq Require Import Reals List Lra Lia.
-From SV Require Import Base.GenPrelude Base.Mat Doc.Groups Base.Tactics Base.Trig Base.Kernels Base.KernelL.
-From SV Require Gen.SE2.
+From SV Require Import Base.GenPrelude Base.Mat Base.Atan2 Doc.Groups Base.Tactics Base.Trig Base.Kernels Base.KernelL Base.AtanEncl.
+From SV Require Gen.SE2 Gen.SO3.
 Import ListNotations.
 Local Open Scope R_scope.
 
@@ -30,3 +30,54 @@ Proof.
   - lra.
 Qed.
 End SE2.
+
+(* ---- SO3 log: both paths are v * A with A = 2 atan2(n, w) / n (closed form) resp. 2/w - 2 n^2/(3 w^3) (series);
+   0 <= K - T <= 2 n^4/(5 w^5) from the atan enclosure x - x^3/3 <= atan x <= x - x^3/3 + x^5/5 (Base/AtanEncl.v, MVT) *)
+Definition so3_log_form (A g0 g1 g2 : R) : list R := [g0 * A; g1 * A; g2 * A].
+Definition K_S (n w : R) := 2 * atan2 n w / n.
+Definition T_S (n2 w : R) := 2 / w - 2 * n2 / (3 * w * w * w).
+
+Lemma KS_trunc n w : 0 < n -> 0 < w -> 0 <= K_S n w - T_S (n*n) w <= 2 * n^4 / (5 * w^5).
+Proof.
+  intros Hn Hw. unfold K_S, T_S. rewrite atan2_pos by assumption.
+  set (x := n / w). assert (Hx : 0 < x) by (unfold x; apply Rdiv_lt_0_compat; assumption).
+  pose proof (atan_lower x ltac:(lra)) as L. pose proof (atan_upper x ltac:(lra)) as U.
+  replace (2 * atan x / n - (2 / w - 2 * (n * n) / (3 * w * w * w))) with (2 / n * (atan x - (x - x^3/3)))
+    by (unfold x; field; split; lra).
+  replace (2 * n^4 / (5 * w^5)) with (2 / n * (x^5/5)) by (unfold x; field; split; lra).
+  assert (0 < 2 / n) by (apply Rdiv_lt_0_compat; lra).
+  split; [apply Rmult_le_pos; lra | apply Rmult_le_compat_l; lra].
+Qed.
+
+Section SO3.
+Import Gen.SO3.
+Lemma so3_log_trunc g0 g1 g2 g3 :
+  so3_valid [g0; g1; g2; g3] -> 0 < g3 -> 0 < g0*g0 + g1*g1 + g2*g2 < eps2 ->
+  let n2 := g0*g0 + g1*g1 + g2*g2 in let n := sqrt n2 in
+  so3_log_p1 [g0; g1; g2; g3] = so3_log_form (T_S n2 g3) g0 g1 g2 /\
+  so3_log_p0 [g0; g1; g2; g3] = so3_log_form (K_S n g3) g0 g1 g2 /\
+  so3_log_c1 [g0; g1; g2; g3] /\
+  0 <= K_S n g3 - T_S n2 g3 <= eps2 * eps2.
+Proof.
+  intros Hv Hw [Hpos Hsmall] n2 n. revert Hv; sv_unfold; intros Hv.
+  pose proof eps2_pos as He0. assert (He1 : eps2 < 1 / 99999999) by apply eps2_small.
+  assert (Hn : 0 < n) by (apply sqrt_lt_R0; assumption).
+  assert (Hsq : n * n = n2) by (apply sqrt_sqrt; unfold n2; lra).
+  pose proof (KS_trunc n g3 Hn Hw) as [L U]. rewrite Hsq in L, U.
+  assert (Hw2 : g3 * g3 = 1 - n2) by (unfold n2; lra).
+  split; [|split; [|split]].
+  - autounfold with so3_log_db. unfold so3_log_form, T_S. sv_unfold. fold n2. list_eq; field; lra.
+  - autounfold with so3_log_db. unfold so3_log_form, K_S. sv_unfold. fold n2. fold n. list_eq; field; lra.
+  - autounfold with so3_log_db. sv_unfold. fold n2. unfold eps2 in *. lra.
+  - split; [exact L|]. eapply Rle_trans; [exact U|].
+    assert (H4 : n^4 = n2 * n2) by (rewrite <- Hsq; ring).
+    assert (Hw1 : 9/10 <= g3) by nra.
+    assert (Hw5 : 1/2 <= g3^5).
+    { assert (81/100 <= g3*g3) by nra. assert (6561/10000 <= (g3*g3)*(g3*g3)) by nra.
+      replace (g3^5) with ((g3*g3)*(g3*g3)*g3) by ring. nra. }
+    rewrite H4. assert (n2 * n2 <= eps2 * eps2) by (apply Rmult_le_compat; lra).
+    apply Rmult_le_reg_r with (5 * g3^5); [lra|].
+    replace (2 * (n2 * n2) / (5 * g3 ^ 5) * (5 * g3 ^ 5)) with (2 * (n2 * n2)) by (field; lra).
+    nra.
+Qed.
+End SO3.
